@@ -715,6 +715,14 @@ impl Model {
             #[cfg(feature = "verif")]
             crate::verif::sched::log(format!("loop.end {}", self.verif_snapshot(&env)));
             #[cfg(feature = "verif")]
+            if self.matcher_control.is_none()
+                && self.item_pool.num_not_taken() == 0
+                && self.reader_control.as_ref().map(|c| c.is_done()).unwrap_or(true)
+            {
+                // nothing outstanding: source read, everything taken, last run harvested
+                crate::verif::sched::point("loop.quiet");
+            }
+            #[cfg(feature = "verif")]
             crate::verif::sched::point("loop.iter_end");
         }
     }
